@@ -985,10 +985,10 @@ class Gen:
 
 	# ------------------------------------------------------------------ statements
 
-	def declare(self, env: Env, body: list[S], ty: str | None = None) -> Var:
+	def declare(self, env: Env, body: list[S], ty: str | None = None, force_name: str | None = None, force_mutable: bool = False) -> Var:
 		r = self.r
 		ty = ty or r.choice(['int', 'int', 'int', 'bool', 'str', 'float', 'float', 'list[int]', 'list[int]', 'dict[str,int]', 'dict[int,int]', 'obj', 'unpack', 'enum'])
-		name = self.pick_name(env, ty) if ty in self.REUSABLE else self.fresh('v')
+		name = force_name or (self.pick_name(env, ty) if ty in self.REUSABLE else self.fresh('v'))
 		if ty == 'unpack':
 			# destructuring of a tuple *variable* (`x, y = (a, b)` directly is emitted as `auto [x, y] = {a, b};`, rejected by g++ — defect candidate)
 			a, b = self.gen_int(env, 1), self.gen_bool(env, 1)
@@ -1011,7 +1011,7 @@ class Gen:
 			self.count('enum:var')
 			return env.vars[name]
 		if ty == 'int':
-			mutable = r.random() < 0.6
+			mutable = force_mutable or r.random() < 0.6
 			nonneg = r.random() < 0.5
 			e = self.gen_int(env, self.size, nonneg=mutable and nonneg, cap=CORE if mutable else I32)
 			v = Var(name, 'int', e.lo, e.hi, mutable, nonneg and mutable)
@@ -1020,7 +1020,7 @@ class Gen:
 			v = Var(name, 'bool', mutable=True)
 		elif ty == 'str':
 			e = self.gen_str(env, self.size)
-			v = Var(name, 'str', e.lo, e.hi, mutable=r.random() < 0.4)
+			v = Var(name, 'str', e.lo, e.hi, mutable=force_mutable or r.random() < 0.4)
 			if v.mutable and e.hi > 16:
 				v.mutable = False
 		elif ty == 'float':
@@ -1107,13 +1107,66 @@ class Gen:
 		env.locals_only.add(name)
 		return v
 
-	def gen_update(self, env: Env, body: list[S]) -> bool:
+	def gen_scope_idiom(self, env: Env, body: list[S]) -> None:
+		"""addendum 16 — one name, three scopes: declared in a nested sibling block, then in the enclosing scope, then assigned in
+		another nested block. Python has one function-level variable; the emitted C++ needs a local in the sibling block, a
+		declaration in the enclosing block and a plain assignment in the nested one."""
+		r = self.r
+		ty = r.choice(['int', 'int', 'bool', 'str'])
+		name = self.fresh('v')
+		# 1. sibling block(s) declaring the name
+		for _ in range(r.randint(1, 2)):
+			sub = Env(self, env)
+			kind = r.choice(['if', 'if', 'for', 'try'])
+			if kind == 'for':
+				sub.mult, sub.in_loop = env.mult * 3, True
+			blk: list[S] = []
+			self.declare(sub, blk, ty, force_name=name)
+			if r.random() < 0.6:
+				self.gen_update(sub, blk)
+			if kind == 'if':
+				body.append(S('if', [(self.gen_bool(env, self.size), blk)], [S('pass')] if r.random() < 0.3 else None))
+			elif kind == 'for':
+				body.append(S('for_range', self.fresh('i'), self.lit_int(0, 3), blk))
+			else:
+				body.append(S('try', blk, [S('pass')], self.fresh('ex')))
+		# 2. declaration in the enclosing scope
+		v = self.declare(env, body, ty, force_name=name, force_mutable=True)
+		# 3. assignment(s) in nested block(s)
+		for _ in range(r.randint(1, 2)):
+			kind = r.choice(['for', 'while-if', 'if'])
+			sub = Env(self, env)
+			blk = []
+			if kind == 'for':
+				n = r.randint(1, 4)
+				sub.mult, sub.in_loop = env.mult * n, True
+				i = self.fresh('i')
+				sub.vars[i] = Var(i, 'int', 0, n - 1)
+				if not self.gen_update(sub, blk, target=v):
+					blk.append(S('pass'))
+				if r.random() < 0.4:
+					self.gen_stmt(sub, blk, 0, None)
+				body.append(S('for_range', i, self.lit_int(n, n), blk))
+			else:
+				if not self.gen_update(sub, blk, target=v):
+					blk.append(S('pass'))
+				if kind == 'if':
+					body.append(S('if', [(self.gen_bool(env, self.size), blk)], None))
+				else:
+					inner = [S('if', [(self.gen_bool(env, self.size), blk)], None)]
+					c = self.fresh('n')
+					body.append(S('assign', E('var', 'int', val=c), self.lit_int(1, 3)))
+					body.append(S('while', E('cmp', 'bool', [E('var', 'int', val=c, lo=0, hi=3), E('lit', 'int', val=0)], op=['>']),
+						[S('aug', E('var', 'int', val=c), E('lit', 'int', val=1, lo=1, hi=1), '-'), *inner]))
+		self.count('scope:sibling-enclosing-nested')
+
+	def gen_update(self, env: Env, body: list[S], target: Var | None = None) -> bool:
 		"""one statement that mutates an existing variable, within its budget"""
 		r = self.r
 		cands = [v for v in env.vars.values() if not v.frozen and (v.mutable or v.ty.startswith(('list[int]', 'dict')) or (v.cls is not None and v.ty == v.cls.name))]
 		if not cands:
 			return False
-		v = r.choice(cands)
+		v = target if target is not None else r.choice(cands)
 		tgt = E('var', v.ty, val=v.name)
 		if v.ty == 'int':
 			if r.random() < 0.65 and v.room > 0:
@@ -1437,6 +1490,8 @@ class Gen:
 		self.dead = {}
 		for _ in range(r.randint(1, 2)):
 			self.declare(env, body)
+		if r.random() < 0.3:
+			self.gen_scope_idiom(env, body)
 		if r.random() < 0.3:
 			# closure: captures parameters / never-reassigned locals only (C++ captures by value at definition time)
 			cparams = self.gen_params([r.choice(['int', 'int', 'bool'])])
